@@ -4,6 +4,7 @@ import itertools
 
 from mc import lib, pmodel, refmass, refdata, catalogue
 
+CASE_TIMEOUT_S = 300      # wall-clock horizon per state (states of this check bundle many sub-states; generous for loaded machines)
 PROPERTY = 'C05'
 RULE = ('full product: every residue string of length 2..L over the 22 unambiguous-mass letters; modified layer: strings of '
         'length 2..4 over {G,K,M,W} with <=2 numeric/formula modifications on residues/termini, written in place or as a '
